@@ -5,7 +5,7 @@ from hypothesis import strategies as st
 
 from vf.core import codec
 from vf.core.base import Violation
-from vf.core.env import Env
+from vf.core.env import FAULT, Env, InjectedFault, arm_fault, disarm_fault
 from vf.core.gen import Cfg, st_program
 from vf.core.proc import make_processor
 from vf.core.prog import BuildError, build_all, decode, describe_case, ev_list, fmt, kinds, lib_nodes, walk
@@ -21,7 +21,10 @@ LEVEL_TEXT = (
     "execute() and Processor.process() on arbitrary sub-relations.  A model records the first non-None payload of every "
     "node (and on payload-less leaves); the implementation must agree with it after every step, attach_payload must raise TypeError exactly when the "
     "model says so, leaf iteration starts must stay within the number of root-to-leaf paths not crossing an already "
-    "cached materialization, and each materialization name sees at most one hook call."
+    "cached materialization, and each materialization name sees at most one completed hook call.  Fault injection: "
+    "execute / process steps may run with an armed fault (the n-th row pulled from any leaf payload raises, or the n-th "
+    "Processor hook call raises); the exception must propagate, every payload that appears on a node must hold that "
+    "node's true rows (no truncated cache), and all invariants continue to hold for the rest of the history."
 )
 LEVEL_NOTE = "trusts: counting payloads; attached payloads carry the node's true rows so later results stay comparable with the reference evaluator; iteration engines only (SQL payload attachment is covered through Processor in C07)"
 RULE = (
@@ -29,7 +32,8 @@ RULE = (
     "model's payload forever once non-None; attach_payload raises TypeError iff the node is not a marker or already has a "
     "payload; per step, each leaf's iteration-start counter grows by <= #paths from the evaluated root to that leaf that "
     "do not cross a cached materialization (so a cached materialization's upstream is never evaluated again); <= 1 "
-    "materialize / materializing-transfer hook call per materialization name; rows of every execute == ev_list.  "
+    "materialize / materializing-transfer hook call per materialization name; rows of every execute == ev_list; an evaluation interrupted by an injected exception (leaf iterator or Processor "
+    "hook) propagates it, and any payload a node gains - then or ever - equals ev_list of that node.  "
     "Non-trivial: a materialization is evaluated and then evaluated or attached again; distinct by case digest."
 )
 ASSUMPTIONS = ["P1", "each execute step consumes its result exactly once"]
@@ -79,7 +83,10 @@ def st_case(draw, tier):
             prog = draw(st_unary_node(prog, schema(prog, leaves), universe, cfg(tier).unary, cfg(tier))) or prog
     steps = draw(
         st.lists(
-            st.tuples(st.sampled_from(["execute", "execute", "process", "attach", "attach"]), st.integers(0, 60)),
+            st.tuples(
+                st.sampled_from(["execute", "execute", "process", "attach", "attach", "fault-execute", "fault-process"]),
+                st.integers(0, 9999),
+            ),
             min_size=4,
             max_size=10 if tier == "quick" else 14,
         )
@@ -147,6 +154,16 @@ def passthrough_paths(rel, env, counts):
         passthrough_paths(rel.rhs, env, counts)
 
 
+def injected(e):
+    seen = set()
+    while e is not None and id(e) not in seen:
+        if isinstance(e, InjectedFault):
+            return True
+        seen.add(id(e))
+        e = e.__cause__ or e.__context__
+    return False
+
+
 def run_case(case, stats):
     from lsst.daf.relation import ColumnError, EngineError, MarkerRelation, Materialization, iteration
 
@@ -187,6 +204,20 @@ def run_case(case, stats):
                         model[id(n)] = n.payload
                         if isinstance(n, Materialization):
                             mat_evaluated.add(id(n))
+                        # a payload that appears on a node is that node's content from now on: it must hold the node's
+                        # true rows (in particular after an evaluation that was cut short by an injected fault)
+                        if isinstance(n.payload, iteration.RowIterable):
+                            try:
+                                want = ev_list(decode(n, env), leaves, check_fd=True)
+                            except Exception:
+                                continue
+                            have = [dict(r) for r in n.payload]
+                            if have != want:
+                                raise Violation(
+                                    "cached-payload-wrong",
+                                    f"after {step}: {type(n).__name__} {str(n)[:120]} carries a payload with rows {have[:6]} ({len(have)}); its content is {want[:6]} ({len(want)})",
+                                    step=step.split(" ")[0],
+                                )
                 elif n.payload is not old:
                     raise Violation(
                         "payload-replaced",
@@ -256,7 +287,22 @@ def run_case(case, stats):
                 sync_model(label)
                 continue
             pnode, rel = prefixes[arg % len(prefixes)]
-            label = f"{kind} {str(rel)[:100]}"
+            faulty = kind.startswith("fault-")
+            fault_desc = ""
+            if faulty:
+                # fault injection: either the n-th row pulled from any leaf payload raises, or (process only) the n-th
+                # Processor hook call raises before doing anything.  The interrupted call must leave the write-once
+                # model intact, cache only complete results, and a later evaluation must still be right.
+                kind = kind.split("-", 1)[1]
+                hook_no = (arg // 400) % 4 if kind == "process" else 0
+                if hook_no:
+                    proc.fail_at = hook_no - 1
+                    proc.fault_fired = False
+                    fault_desc = f" [fault: Processor hook call #{hook_no - 1} raises]"
+                else:
+                    arm_fault((arg // 61) % 6)
+                    fault_desc = f" [fault: leaf row pull #{(arg // 61) % 6} raises]"
+            label = f"{kind} {str(rel)[:100]}{fault_desc}"
             bound = {}
             touched_mats = [n for n in lib_nodes(rel) if isinstance(n, Materialization)]
             if any(id(n) in mat_evaluated for n in touched_mats):
@@ -264,19 +310,34 @@ def run_case(case, stats):
             paths_uncached(rel, env, set(), bound)
             before = starts()
             expected = memo[id(pnode)]
+            nlog = len(proc.log)
+            got = None
             try:
                 if kind == "execute":
                     got = [dict(r) for r in rel.engine.execute(rel)]
                 else:
-                    nlog = len(proc.log)
                     processed = proc.process(rel)
                     got = [dict(r) for r in processed.engine.execute(processed)]
-                    for hook, src, dest, name in proc.log[nlog:]:
-                        if name is not None:
-                            hook_calls[name] = hook_calls.get(name, 0) + 1
             except Exception as e:
-                raise Violation("evaluation-raised", f"{label}: {type(e).__name__}: {str(e)[:300]}", sig=exc_sig(e))
-            if got != expected:
+                if not (faulty and injected(e)):
+                    raise Violation("evaluation-raised", f"{label}: {type(e).__name__}: {str(e)[:300]}", sig=exc_sig(e))
+                stats.c[f"fault:{kind}:interrupted"] += 1
+                interrupted = True
+            finally:
+                fired = FAULT["fired"] or proc.fault_fired
+                disarm_fault()
+                FAULT["fired"] = False
+                proc.fail_at = None
+                proc.fault_fired = False
+                for idx, (hook, src, dest, name) in enumerate(proc.log[nlog:], nlog):
+                    if name is not None and idx in proc.completed:
+                        hook_calls[name] = hook_calls.get(name, 0) + 1
+            if faulty and got is not None:
+                stats.c[f"fault:{kind}:{'swallowed' if fired else 'not-reached'}"] += 1
+                if fired:
+                    # the fault was raised inside the library call and the call still returned rows
+                    raise Violation("fault-swallowed", f"{label}: the injected exception did not propagate; rows returned {got[:6]}", step=kind)
+            if got is not None and got != expected:
                 raise Violation("rows-differ", f"{label}: expected {expected[:6]} got {got[:6]} (program {fmt(pnode, leaves)})", step=kind)
             after = starts()
             # caches that *are* a leaf's payload object (materialized() hands materialized payloads through, and the
@@ -295,6 +356,8 @@ def run_case(case, stats):
                     raise Violation("materialization-recomputed", f"{cnt} materialize/transfer hook calls for materialization {name!r}; last step {label}", step=kind)
             stats.c[f"step:{kind}"] += 1
             sync_model(label)
+            if faulty and got is None and any(id(n) in mat_evaluated for n in touched_mats):
+                revisited = True
         if revisited:
             stats.mark_nontrivial(codec.digest(case), lambda: describe(case), cls="+".join(sorted({k for k, _ in steps})))
     finally:
